@@ -57,6 +57,14 @@ export function* generate({ tier, seed }) {
     if (form.endsWith('number')) ctors.push('Number');
     yield emit([{ src, ctors, inhabitants: [{ js: isB(x) ? 'true' : '"s"', atom: x }, { js: isB(y) ? 'false' : '"s"', atom: y }], ops: ['order:' + form] }], decls, 'before', `order|${form}|${x}|${y}`);
   }
+  // 2c. the same order question when the first member is a reference (alias / indexed access) and the second a keyword
+  for (const [x, y] of [['boolean', 'string'], ['string', 'boolean'], ["'sm' | 'lg'", 'boolean'], ['true', 'string']]) for (const via of ['alias', 'indexed', 'aliasSecond']) {
+    const isB = (t) => /boolean|true|false/.test(t);
+    const decls = via === 'indexed' ? [{ text: `interface Ix { t: ${x}; other: number }` }] : [{ text: `type Al = ${via === 'aliasSecond' ? y : x};` }];
+    const src = via === 'alias' ? `Al | ${y}` : via === 'indexed' ? `Ix['t'] | ${y}` : `${x} | Al`;
+    const ctors = [isB(x) ? 'Boolean' : 'String', isB(y) ? 'Boolean' : 'String'];
+    yield emit([{ src, ctors, inhabitants: [{ js: isB(x) ? 'true' : '"sm"', atom: x }, { js: isB(y) ? 'false' : '"s"', atom: y }], ops: ['order:' + via] }], decls, 'before', `orderRef|${via}|${x}|${y}`);
+  }
   // 3. random trees of depth <= 4
   const nRand = tier === 'quick' ? 12000 : 400000;
   for (let i = 0; i < nRand; i++) {
